@@ -16,7 +16,8 @@ def make_files(rng, nfiles, tier, wd, max_links=4, enc_pool=12, small=False, all
     """Returns list of dict(data, Ns, pages) : chained files mixing real-encoder and hand-made links."""
     specs = []
     for i in range(enc_pool):
-        specs.append((1000 + i, rng.choice([1, 2]), rng.choice([8000, 22050, 44100]), rng.choice([0.0, 0.3, 0.6]),
+        # serial numbers of every class: small, just below / at / above 2^31, near 2^32
+        specs.append((rng.choice([1000, 1000, 0x7ffffff0, 0x80000000, 0xc0000000, 0xffffff00]) + i, rng.choice([1, 2]), rng.choice([8000, 22050, 44100]), rng.choice([0.0, 0.3, 0.6]),
                       rng.choice([0, 1, 500, 3000, 12000, 30000] if not small else [0, 1, 300, 2000, 5000]),
                       rng.below(5), rng.below(1 << 30), rng.choice([0, 0, 1, 3])))
     enc = vfgen.encode_links(specs, wd)
@@ -33,7 +34,7 @@ def make_files(rng, nfiles, tier, wd, max_links=4, enc_pool=12, small=False, all
                     d, N = enc[j], specs[j][4]
                     kinds.append("enc")
             if d is None:
-                d, m = vfgen.handmade_link(rng, 5000 + k * 10 + li, small=small, allow_trim_begin=allow_trim_begin)
+                d, m = vfgen.handmade_link(rng, rng.choice([5000, 5000, 0x7fff0000, 0x80000000, 0xfff00000]) + (k * 10 + li) % 60000, small=small, allow_trim_begin=allow_trim_begin)
                 N = m["N"]
                 kinds.append("hand")
             data += d
